@@ -2648,18 +2648,26 @@ func (s *swamp) CloneAndDeleteExpiredTreasures(howMany int32) ([]treasure.Treasu
 		verifhook.Point("shift.selected", len(shiftedTreasures))
 	}
 
-	// delete the shifted treasures from the other indexes
+	// delete the shifted treasures from the other indexes. Other requests run between the selection pass and these
+	// deletes: a record that was deleted, or is not expired any more, by now is not handed out, and what is handed
+	// out is the copy taken under the record guard right before the delete.
+	now := time.Now().UTC().UnixNano()
+	claimedTreasures := make([]treasure.Treasure, 0, len(shiftedTreasures))
 	for _, d := range shiftedTreasures {
-		// delete the treasure from the beaconKey
 		// A lejárt treasureok esetében mindig valódi törlést végzünk és nem csak "törölt" flaggel jelöljük meg a treasuret
-		s.deleteHandler(d.GetKey(), false)
+		if _, fresh := s.deleteHandlerIf(d.GetKey(), false, func(t treasure.Treasure) bool {
+			exp := t.GetExpirationTime()
+			return exp != 0 && exp < now
+		}); fresh != nil {
+			claimedTreasures = append(claimedTreasures, fresh)
+		}
 	}
 
 	// destroy the swamp if there is no treasure in it
 	remainingCount := s.beaconKey.Count()
 	slog.Debug("CloneAndDeleteExpiredTreasures auto-destroy check",
 		"swamp", s.name.Get(),
-		"shifted", len(shiftedTreasures),
+		"shifted", len(claimedTreasures),
 		"remainingCount", remainingCount)
 	if remainingCount == 0 {
 		slog.Info("CloneAndDeleteExpiredTreasures: auto-destroying empty swamp",
@@ -2669,7 +2677,7 @@ func (s *swamp) CloneAndDeleteExpiredTreasures(howMany int32) ([]treasure.Treasu
 	}
 
 	// return with the shifted treasures
-	return shiftedTreasures, nil
+	return claimedTreasures, nil
 }
 
 // CloneAndDeleteMatchingTreasures is the parametric generalisation of
@@ -2732,8 +2740,12 @@ func (s *swamp) CloneAndDeleteMatchingTreasures(beaconType BeaconType, order Bea
 
 	// Drop shifted treasures from every sibling index — same as
 	// CloneAndDeleteExpiredTreasures. Permanent delete (shadowDelete=false).
+	// Re-validated under the record guard, see CloneAndDeleteExpiredTreasures.
+	claimedTreasures := make([]treasure.Treasure, 0, len(shiftedTreasures))
 	for _, d := range shiftedTreasures {
-		s.deleteHandler(d.GetKey(), false)
+		if _, fresh := s.deleteHandlerIf(d.GetKey(), false, predicate); fresh != nil {
+			claimedTreasures = append(claimedTreasures, fresh)
+		}
 	}
 
 	// Auto-destroy on empty, mirroring CloneAndDeleteExpiredTreasures.
@@ -2742,7 +2754,7 @@ func (s *swamp) CloneAndDeleteMatchingTreasures(beaconType BeaconType, order Bea
 		s.destroyIfEmpty()
 	}
 
-	return shiftedTreasures, capReached, nil
+	return claimedTreasures, capReached, nil
 }
 
 // CountMatchingTreasures counts treasures matching the predicate on the
@@ -2926,11 +2938,19 @@ func (s *swamp) sendSwampInfo() {
 
 // deleteHandler deletes the treasure from the swamp
 func (s *swamp) deleteHandler(key string, shadowDelete bool) (deletedTreasure treasure.Treasure) {
+	deletedTreasure, _ = s.deleteHandlerIf(key, shadowDelete, nil)
+	return deletedTreasure
+}
+
+// deleteHandlerIf is deleteHandler for a claim (shift): stillWanted is asked under the record guard, on the record that
+// is stored under the key at that moment. When it says no, nothing is deleted, the record is put back into the indexes
+// the selection pass took it out of, and both results are nil. The second result is the copy taken under the guard.
+func (s *swamp) deleteHandlerIf(key string, shadowDelete bool, stillWanted func(treasure.Treasure) bool) (deletedTreasure treasure.Treasure, copyUnderGuard treasure.Treasure) {
 
 	// clone the treasure itself to the clonedTreasure
 	treasureObj := s.beaconKey.Get(key)
 	if treasureObj == nil {
-		return nil
+		return nil, nil
 	}
 
 	guardID := treasureObj.StartTreasureGuard(true, guard.BodyAuthID)
@@ -2940,7 +2960,11 @@ func (s *swamp) deleteHandler(key string, shadowDelete bool) (deletedTreasure tr
 	}
 	// somebody else may have deleted (or replaced) the object while we waited for its guard
 	if s.beaconKey.Get(key) != treasureObj {
-		return nil
+		return nil, nil
+	}
+	if stillWanted != nil && !stillWanted(treasureObj) {
+		s.addTreasureToBeacons(treasureObj)
+		return nil, nil
 	}
 
 	// Még változtatás előtt lemásoljuk a Treasure-t, hogy egy clone-t készíthessünk róla, hogy a törölt treasure-t minden
@@ -2972,7 +2996,7 @@ func (s *swamp) deleteHandler(key string, shadowDelete bool) (deletedTreasure tr
 	s.sendDeletedEventToClient(clonedTreasure)
 	s.sendSwampInfo()
 
-	return treasureObj
+	return treasureObj, clonedTreasure
 
 }
 
